@@ -24,20 +24,23 @@ type c05Shape struct {
 	Keys []string // plain keys, ascending
 	Val  string   // value class
 	Subs []string // nested bucket entries (names)
+	Levels int   // levels the B+tree of the shape must have (0 = not asserted); guards against a vacuous shape
 }
 
 func c05Shapes(ps int) []c05Shape {
 	long := func(i int) string { return fmt.Sprintf("L%02d", i) + strings.Repeat("_", ps/3-3) }
-	var l10 []string
-	for i := 0; i < 10; i++ {
-		l10 = append(l10, long(i))
+	// 12 long keys: leaves of 2,2,2,2,4 keys, a branch level of 2+3 children and a root above it (10 keys give a
+	// two-level tree only - found when a seeded change that needs a second branch level went unnoticed)
+	var l12 []string
+	for i := 0; i < 12; i++ {
+		l12 = append(l12, long(i))
 	}
 	return []c05Shape{
 		{Name: "empty"},
 		{Name: "inline", Keys: []string{"b", "d"}, Val: "s"},
 		{Name: "leaf", Keys: []string{"b", "d", "f"}, Val: "M"},
-		{Name: "twolevel", Keys: []string{"b", "d", "f", "h", "j", "l", "n", "p", "r"}, Val: "M"},
-		{Name: "threelevel", Keys: l10, Val: "s"},
+		{Name: "twolevel", Keys: []string{"b", "d", "f", "h", "j", "l", "n", "p", "r"}, Val: "M", Levels: 2},
+		{Name: "threelevel", Keys: l12, Val: "s", Levels: 3},
 		{Name: "nested", Keys: []string{"b", "d", "f", "h", "j", "l"}, Val: "M", Subs: []string{"c", "k"}},
 	}
 }
@@ -104,6 +107,13 @@ func c05Build(ps int, flt string, sh c05Shape) ([]byte, error) {
 	}
 	if f := x.Do(commit); f != nil {
 		return nil, fmt.Errorf("%v", f)
+	}
+	if sh.Levels > 0 {
+		got := 0
+		_ = x.DB.View(func(tx *bolt.Tx) error { got = tx.Bucket([]byte("t")).Stats().Depth; return nil })
+		if got != sh.Levels {
+			return nil, fmt.Errorf("shape %s at page size %d has %d tree levels, %d intended", sh.Name, ps, got, sh.Levels)
+		}
 	}
 	if _, f := x.CheckFile("c05 shape"); f != nil {
 		return nil, fmt.Errorf("%v", f)
